@@ -184,11 +184,11 @@ func rootsFromEnv(P *load.Program) []*ssa.Function {
 func guardsSelfTest(c *Ctx, rule string) {
 	problems, n := guards.SelfTest()
 	c.Run.Rule(rule, "E3 positive fixtures: every bad_* fixture yields a failed obligation of its kind, every ok_* fixture is fully discharged")
-	if len(problems) == 0 && n >= 28 {
+	if len(problems) == 0 && n >= 30 {
 		c.Run.OK(rule, "fixtures", "internal/guards/selftest.go", "fixture expectations hold", fmt.Sprintf("%d fixture functions analysed", n), false)
 		return
 	}
-	if n < 28 {
+	if n < 30 {
 		problems = append(problems, fmt.Sprintf("only %d fixture functions analysed", n))
 	}
 	for _, p := range problems {
